@@ -100,6 +100,14 @@ def has_sections(x):
     return False
 
 
+def has_exponent(x):
+    if isinstance(x, (list, tuple)):
+        if isinstance(x, tuple) and x and x[0] == "intr" and x[1] == "IExponent":
+            return True
+        return any(has_exponent(q) for q in x)
+    return False
+
+
 def text_form(stmts):
     """sections printed as lo:hi (a pseudo variable named 'lo:hi' for vlib.minifort.to_fortran)"""
     def f(t):
@@ -952,9 +960,17 @@ def run(ctx):
         ctx.hist("region_clauses", "p%d f%d s%d" % (len(p), len(f), len(ns)))
     acc_idx = [i for i, r in enumerate(results) if r["accepted"] and r.get("clauses") is not None]
     section_pos = {pos for pos, i in enumerate(acc_idx) if results[i]["seen"] is None}
+    section_modelled = set()
     for pos, i in enumerate(acc_idx):
         res = results[i]
         if res["seen"] is None:
+            # desugared section loop (coq/C09/Sections.v): safe_with on the element statements with the
+            # temporaries as additional private scalars (C09_omp_sound_sections); EXPONENT stays harness-only
+            if not has_exponent(res["sem"]):
+                priv = list(res["clauses"][0]) + res["temps"]
+                nm = names_for([res["sem"]], priv + res["clauses"][1])
+                add("JSafe", "(%s, (%s, %s))" % (mf.stmt_to_coq(res["sem"], nm), nlist(priv, nm), nlist(res["clauses"][1], nm)), pos)
+                section_modelled.add(pos)
             continue
         nm = names_for([res["seen"]], res["clauses"][0] + res["clauses"][1])
         add("JSafe", "(%s, (%s, %s))" % (mf.stmt_to_coq(res["seen"], nm), nlist(res["clauses"][0], nm), nlist(res["clauses"][1], nm)), pos)
@@ -968,7 +984,7 @@ def run(ctx):
          "JXv": xv_bad}.get(kind, []).append(ref)
         if kind == "JSafe":
             unsafe.add(ref)
-    unsafe |= section_pos          # loops with array sections are never covered by the theorem
+    unsafe |= (section_pos - section_modelled)      # EXPONENT loops are never covered by the theorem
     n_infer = sum(1 for t in tags if t[0] == "JInfer")
     ctx.log("infer cases=%d differ=%d | verdict cases=%d impl-accepts-model-rejects=%d differ=%d outside-class=%d | "
             "accepted=%d gap=%d | omp_run vs Coq omp_exec: %d cases %d differ"
@@ -994,7 +1010,9 @@ def run(ctx):
             clause_text_mismatch.append(i)
         ctx.count(res["source"], True)
         ctx.hist("accepted_clauses", "private%d firstprivate%d" % (len(res["clauses"][0]) - 1, len(fprivate)))
-        ctx.hist("bucket", "sections (search only)" if pos in section_pos else "gap" if pos in unsafe else "safe")
+        ctx.hist("bucket", ("sections/EXPONENT (search only)" if pos not in section_modelled else
+                            "gap (desugared sections)" if pos in unsafe else "safe (desugared sections)")
+                 if pos in section_pos else "gap" if pos in unsafe else "safe")
         found = None
         for si, vals in enumerate(stores):
             ser = mf.interp([loop], vals, BNDS)
